@@ -170,6 +170,7 @@ func DecodeBoxSR(startPos uint64, sr bits.SliceReader) (Box, error) {
 	}
 
 	d, ok := decodersSR[h.Name]
+	payloadStart := sr.GetPos()
 
 	if !ok {
 		b, err = DecodeUnknownSR(h, startPos, sr)
@@ -178,6 +179,16 @@ func DecodeBoxSR(startPos uint64, sr bits.SliceReader) (Box, error) {
 	}
 	if err != nil {
 		return nil, &boxDecodeError{name: h.Name, pos: startPos, err: err}
+	}
+	nrRead := sr.GetPos() - payloadStart
+	if nrRead > h.payloadLen() {
+		// The box decoder has read into the bytes following the box
+		err = fmt.Errorf("box payload is %d bytes, but %d bytes were needed", h.payloadLen(), nrRead)
+		return nil, &boxDecodeError{name: h.Name, pos: startPos, err: err}
+	}
+	if nrRead < h.payloadLen() && h.Name != "mdat" {
+		// The box decoder did not need all bytes. Continue after the box like the io.Reader decoders do
+		sr.SetPos(payloadStart + h.payloadLen())
 	}
 
 	return b, nil
